@@ -75,17 +75,17 @@ CHECKS.update({
 NOT_YET = {}
 
 # additions made while validating against seeded changes (DESIGN.md 14.3); appended to the level notes
-COMMON = " In 12 % of the games every engine call on the monitored state is preceded by the same call on look-alike decoy states (decoy.rs); a quarter of the games ask valid_actions() before valid_actions_no_rep() and carry one state object along with clone_from; half of the turn trees are walked level by level in transposition order."
+COMMON = " In 12 % of the games every engine call on the monitored state is preceded by the same call on look-alike decoy states (decoy.rs); a quarter of the games ask valid_actions() before valid_actions_no_rep() and carry one state object along with clone_from; half of the turn trees are walked level by level in transposition order; one W1 game in 16 starts from a wide-open position (whole army spread out or scattered, step lists of 50-70 entries) and the Reverser policy is part of the general policy list."
 TWINS = " Every 4th (thorough: 12th) visited play state is also judged on synthetic twins built with the public constructors: re-assembled, saturated and half-saturated past (decoy::judged_twins) - these twins are not known to be reachable."
 EXTRA = {
- "C01": COMMON + TWINS, "C04": COMMON + TWINS, "C07": COMMON + TWINS, "C12": COMMON + TWINS,
- "C02": COMMON, "C03": COMMON, "C05": COMMON, "C06": COMMON, "C08": COMMON + " Every 16th turn start is also parsed from text with every accepted side letter (g/w, s/b).", "C09": COMMON + " Sparse setup walks: complete random orders with questions only before four placements; in every other walk unrelated setup positions (same slot of the other colour, next slot, same slot) are questioned right before placements made without a question; the finished position (board, side, phase) is judged.", "C10": COMMON, "C13": COMMON, "C19": COMMON + " clone_from is part of the call battery.",
+ "C01": COMMON + TWINS, "C04": COMMON + TWINS + " A mid-turn state with nothing offered must be reported as a loss for the mover.", "C07": COMMON + TWINS + " W4c barely-mobile positions (immobilised / nothing but pushes) are played as a game family, one turn each.", "C12": COMMON + TWINS,
+ "C02": COMMON, "C03": COMMON, "C05": COMMON + " W5e null turns on wide-open positions (step, take-back, step, take-back attempt); 15 % of the games ask play states for valid_actions() only (offered-only diet).", "C06": COMMON + " W5e null turns on wide-open positions.", "C08": COMMON + " Every 16th turn start is also parsed from text with every accepted side letter (g/w, s/b).", "C09": COMMON + " Sparse setup walks: complete random orders with questions only before four placements; in every other walk unrelated setup positions (same slot of the other colour, next slot, same slot) are questioned right before placements made without a question; the finished position (board, side, phase) is judged.", "C10": COMMON, "C13": COMMON, "C19": COMMON + " clone_from is part of the call battery.",
  "C14": COMMON + " A scratch state overwritten with clone_from at every visited state (previous content: a sibling line or a type-permuted look-alike) is asked the same questions. Earlier boards are compared through the per-piece views and word by word (gold, six type words, occupancy).",
  "C15": COMMON + " Malformed relatives of the state's own text are parsed before every 16th round trip.",
  "C11": " W5b / W5d scripts are also started at move 1-3; positions one step from a mirror-symmetric board; game and image are asked alternately in every other twin game; the saturated twins of both states are compared as well.",
  "C16": " Also every ordered triple of the 263 action values printed back to back (18.2 M) and every sequence of four parses over {move, one-character token, derived token} (6.7 M parses), and every action value printed into a sink that fails after 0-3 bytes followed by every action value (277 k pairs); every action and square under 16 formatter options (width, fill, alignment, sign, zero, alternate, Debug inherited from Vec / Option), and everything once more on fresh threads started after all other work.",
  "C17": " The side / step / status families are also enumerated in a second un-hashed context (capture-this-turn flag set, later move, longer history); hashes of states reached by play are compared with those of every local variant (one square's content, one piece one square elsewhere, side, step, status incl. other piece types on the pending square).",
- "C18": " Also: fresh rounds (threads released together onto a never-queried turn, oracle computed afterwards), migration rounds (states built on one thread continued on another), simultaneous children (different turn-ending actions of one never-expanded state at the same instant), sibling and history duels, slot rounds (look-alikes moved through one state variable per thread), a sibling game built alone vs beside its live sibling, pool rounds.",
+ "C18": " Also: fresh rounds (threads released together onto a never-queried turn, oracle computed afterwards), migration rounds (states built on one thread continued on another), simultaneous children (different turn-ending actions of one never-expanded state at the same instant), sibling and history duels, slot rounds (look-alikes moved through one state variable per thread), a sibling game built alone vs beside its live sibling, pool rounds; cold start on prepared states (first questions of a fresh process put to one parser-built mid-turn state by 4-16 threads at once); a deadlock detector (all threads in futex waits, no CPU time for 30 s, no child) turns a hang into the verdict threads_deadlocked.",
  "C20": " The long game is played twice in lock-step (a twin with its own history list): every exercised state is also probed with ==, Hash and a HashSet look-up against its twin; step-away-and-back states, a continued twin queried at step 3, and a second game on the same thread after everything was dropped; the last owner of the twin is overwritten with clone_from; a third set of survival children runs in an unoptimised (opt-level 0) build; a state reached by a capture inside a turn is kept until every owner of the long history is gone and dropped last; one child per profile builds, queries, drops and overwrites histories of 96 boundary lengths (2^8..2^19 and multiples of 2^16, -1 / +0..32).",
 }
 for k, v in EXTRA.items():
